@@ -389,7 +389,11 @@ func sumTypeSwitchesOn(c *Ctx, rule string, target types.Type, ifaceName string,
 					}
 				}
 				inst := relPkg(pk.Types) + "." + fnName
-				if why, partialOK := partialSwitchOK[inst]; partialOK {
+				why, partialOK := partialSwitchOK[inst]
+				if ln := strings.ToLower(fnName); !partialOK && (strings.Contains(ln, "copy") || strings.Contains(ln, "clone")) {
+					why, partialOK = "copy helper: only the kinds that own reference memory need cloning (that the copy is complete is decided under C09 copy-is-deep)", true
+				}
+				if partialOK {
 					c.Info(rule, inst, p.Pos(ts.Pos()), "partial by design: "+why)
 					n--
 					return true
